@@ -18,6 +18,14 @@ public:
 // As in AsgMessaging/MessageCheck.h: on failure, report and return a failure code from the enclosing function.
 #define ANA_CHECK(EXP) do { StatusCode vm_sc__ = (EXP); if (!vm_sc__.isSuccess()) { return StatusCode::FAILURE; } } while (false)
 
+// AsgMessaging: the message macros are stream-like and available inside an algorithm
+#define ANA_MSG_VERBOSE(X) do { std::ostringstream vm_os__; vm_os__ << X; } while (false)
+#define ANA_MSG_DEBUG(X) do { std::ostringstream vm_os__; vm_os__ << X; } while (false)
+#define ANA_MSG_INFO(X) do { std::ostringstream vm_os__; vm_os__ << X; } while (false)
+#define ANA_MSG_WARNING(X) do { std::ostringstream vm_os__; vm_os__ << X; vm::out() << "MSG WARNING " << vm::hex(vm_os__.str()) << "\n"; } while (false)
+#define ANA_MSG_ERROR(X) do { std::ostringstream vm_os__; vm_os__ << X; vm::out() << "MSG ERROR " << vm::hex(vm_os__.str()) << "\n"; } while (false)
+#define ANA_MSG_FATAL(X) do { std::ostringstream vm_os__; vm_os__ << X; vm::out() << "MSG FATAL " << vm::hex(vm_os__.str()) << "\n"; } while (false)
+
 template <class T> class DataVector {
   std::vector<const T *> v_;
 public:
